@@ -814,8 +814,8 @@ func resolveBlockAddress(block *hcl.Block, blockSchema *schema.BlockSchema) (lan
 				return lang.Address{}, false
 			}
 			val, _ := attr.Expr.Value(nil)
-			if !val.IsWhollyKnown() {
-				// unknown value
+			if val.IsNull() || !val.IsWhollyKnown() {
+				// null or unknown value
 				return lang.Address{}, false
 			}
 			if val.Type() != cty.String {
